@@ -715,6 +715,14 @@ class VM:
                     if proto is None or proto is UNDEFINED:
                         proto = getattr(constructor, "_prototype", None)
 
+                if isinstance(constructor, JSFunction) and not isinstance(
+                    proto, JSObject
+                ):
+                    # arrow functions, method shorthands, F.prototype = 1
+                    raise JSTypeError(
+                        "Function has non-object prototype in instanceof check"
+                    )
+
                 # Walk the prototype chain
                 result = False
                 current = getattr(obj, "_prototype", None)
